@@ -3,6 +3,7 @@ package otto
 import (
 	"reflect"
 	"strconv"
+	"strings"
 )
 
 func (rt *runtime) newGoSliceObject(value reflect.Value) *object {
@@ -23,6 +24,17 @@ func newGoSliceObject(value reflect.Value) *goSliceObject {
 	}
 }
 
+// goValueError turns a failed conversion on a bridged Go container into a JavaScript
+// exception the script can catch (the bare Go error used to be panicked as it was,
+// which Run does not convert: the panic went through to the embedding program).
+func goValueError(err error) ottoError {
+	msg := err.Error()
+	if rest, ok := strings.CutPrefix(msg, "RangeError: "); ok {
+		return newError(nil, "RangeError", 0, "%s", rest)
+	}
+	return newError(nil, "TypeError", 0, "%s", msg)
+}
+
 func (o goSliceObject) getValue(index int64) (reflect.Value, bool) {
 	if index < int64(o.value.Len()) {
 		return o.value.Index(int(index)), true
@@ -33,7 +45,7 @@ func (o goSliceObject) getValue(index int64) (reflect.Value, bool) {
 func (o *goSliceObject) setLength(value Value) {
 	want, err := value.ToInteger()
 	if err != nil {
-		panic(err)
+		panic(goValueError(err))
 	}
 
 	wantInt := int(want)
@@ -54,7 +66,7 @@ func (o *goSliceObject) setLength(value Value) {
 func (o *goSliceObject) setValue(index int64, value Value) bool {
 	reflectValue, err := value.toReflectValue(o.value.Type().Elem())
 	if err != nil {
-		panic(err)
+		panic(goValueError(err))
 	}
 
 	indexValue, exists := o.getValue(index)
